@@ -29,9 +29,9 @@ def behs(pairs):
     return "{" + ", ".join("<<%s, %s>>" % (one(a), one(b)) for a, b in pairs) + "}"
 
 
-ALL_PORTS = ["one", "oneR", "two", "adj", "dup", "lo", "hi", "r16", "r17", "big", "blk", "allbut"]
+ALL_PORTS = ["one", "oneR", "two", "adj", "dup", "lo", "top", "hi", "r16", "r17", "big", "blk", "blkR", "allbut"]
 ALL_PFX = ["p", "s", "ps", "ss", "v6"]
-ALL_DOM = ["l", "L", "s1", "s2", "big", "kw", "mix"]
+ALL_DOM = ["l", "M", "L", "s1", "s2", "mid", "big", "kw", "mix"]
 ADDRS = [Id(A4), Id(A4m), Id(B4), Id(C6), Id(D4)]
 NAMES = ["example.com", "www.example.com", "notexample.com", "a.ads.example.net", "other.test"]
 BEH_SMALL = [(A4, "fail"), (D4, "fail"), ("fail", A4), ("errlookup", A4), ("errlookup", "errlookup")]
@@ -105,15 +105,15 @@ def plan(tier, seed, k):
             Sips=S([Id(A4), Id(A4m), Id(B4), Id(D4)]), Ports=S([0, 443, 2001, 30001]), Behs=behs(BEH_SMALL[:4]),
             IpTargets=S([Id(A4), Id(A4m), Id(D4)]), DomTargets=S(["www.example.com", "other.test"]))
     else:
-        add("pairs", 5, RouteSpace="Pairs", Asks="Vary2(Q1) \\cup Vary2(Q2)", SrvVars=S(["s0"]), UsrVars=S(["a"]),
+        add("pairs", 5, RouteSpace="Pairs", Asks="Vary2(Q1) \\cup Vary(Q2)", SrvVars=S(["s0"]), UsrVars=S(["a"]),
             PortVars=S(["one", "r17"]), SipVars=S(["p", "s"]), DomVars=S(["l", "s1"]), PfxVars=S(["p"]),
             Usrs=S(["alice", "mallory"]), Sips=S([Id(A4), Id(A4m), Id(B4), Id(D4)]), Ports=S(PORTS_SMALL), Behs=behs(BEH_SMALL[:4]),
             IpTargets=S([Id(A4), Id(D4)]), DomTargets=S(["example.com", "other.test"]))
     # dest: the destination group in full (domain condition, expectation, prefix condition, resolver choice) against every
     # target and resolver behaviour
-    add("dest", 16 if big else 3, RouteSpace="DestLattice", Behs=behs(BEH_ALL),
-        DomVars=S(ALL_DOM if big else ["l", "s1", "big"]), PfxVars=S(ALL_PFX if big else ["p", "s"]),
-        ExpVars=S(["p", "s"] if big else ["p"]), Ports=S(PORTS_SMALL), INVARIANTS=heavy if big else light)
+    add("dest", 16 if big else 3, RouteSpace="DestLattice", Behs=behs(BEH_ALL), Asks="Vary(Q1) \\cup Vary(Q2)" if big else "Vary(Q1) \\cup {Q2}",
+        DomVars=S(ALL_DOM if big else ["l", "s1", "mid"]), PfxVars=S(ALL_PFX if big else ["p", "s"]),
+        ExpVars=S(["p", "s"]), Ports=S(PORTS_SMALL), INVARIANTS=heavy if big else light)
     # order: every list of 0..n routes over a handful of templates (true / false / undecidable / rejecting by
     # different mechanisms), every default
     tgts = dict(IpTargets=S([Id(A4), Id(D4)]), DomTargets=S(["www.example.com", "other.test"]),
@@ -121,14 +121,14 @@ def plan(tier, seed, k):
     order_asks = ('{[Q1 EXCEPT !.net = n, !.usr = u, !.sip = s, !.tport = p, !.tk = t.tk, !.ta = t.ta, !.b = t.b] : '
                   'n \\in Nets, u \\in {"alice", "mallory"}, s \\in %s, p \\in {0, 443}, t \\in Tgts}')
     add("order", 16 if big else 3, RouteSpace="Templates", MaxRoutes=4 if big else 3,
-        DefaultSpace="{%s, %s}" % (D_C0, D_REJ),
+        DefaultSpace="{%s, %s}" % (D_C0, D_REJ) if big else "{%s}" % D_REJ,
         Asks=order_asks % "{A4}",
         INVARIANTS=light + (" ImplRefinesDecl" if big else ""), PROPERTIES="GetIsPure AppendLaw" if big else "GetIsPure", **tgts)
     # design (quick only; thorough checks the invariants in every run): all invariants and action properties of the
     # definition on every list of 0..2 template routes
     if not big:
         add("design", 3, RouteSpace="Templates", MaxRoutes=2, DefaultSpace="{%s, %s}" % (D_C0, D_UNSET),
-            Asks=order_asks % "{A4, D4}", INVARIANTS=heavy, PROPERTIES="GetIsPure AppendLaw", **tgts)
+            Asks=order_asks % "{A4}", INVARIANTS=heavy, PROPERTIES="GetIsPure AppendLaw", **tgts)
     # random: seeded route lists of 0..6 routes, every field independent
     n = 1200 if big else 160
     add("random", 16 if big else 3, RouteSpace="GivenAt", StartGuard="routes \\in Given", MaxRoutes=6,
@@ -212,6 +212,8 @@ def run(tier, seed, replay):
             cat = dict(cat, asks=[rep["ask"]])
             case = dict(case, outs=[case["outs"][rep["askIndex"]]])
         res, out, rc = vlib.run_driver(binary, "TestCases", {"params": {"cat": cat, "cases": [case]}, "seed": seed}, 120)
+        for f in (res or {}).get("violations", []):
+            f["replay"].update(cat=dict(cat, asks=[]), askIndex=0)
         common.absorb(v, res, out, rc, "replay")
         v.coverage.update(evaluations=res["steps"], distinct_nontrivial=res["distinct"], rule="replay of one recorded case")
         v.sample({"routes": case["routes"], "asks": cat["asks"][:3]})
@@ -228,10 +230,10 @@ def run(tier, seed, replay):
     results = {}
     if big:
         for name, (consts, workers) in runs.items():
-            results[name] = run_tlc(name, consts, workers, 840)[1]
+            results[name] = run_tlc(name, consts, workers, 1500)[1]
     else:
         with ThreadPoolExecutor(max_workers=len(runs)) as ex:
-            for name, r in ex.map(lambda kv: run_tlc(kv[0], kv[1][0], kv[1][1], 300), runs.items()):
+            for name, r in ex.map(lambda kv: run_tlc(kv[0], kv[1][0], kv[1][1], 600), runs.items()):
                 results[name] = r
     inputs, seen, tlc_cov = [], set(), {}
     evaluations = distinct = nontrivial = 0
@@ -252,9 +254,10 @@ def run(tier, seed, replay):
             if c["routes"]:
                 nontrivial += len(c["outs"])
             for o in c["outs"]:
-                hist[("soft " if o.startswith("?") else "") + ("order-dependent" if "~" in o else
-                     "error" if o.lstrip("?") == "error" else "rejected" if o.lstrip("?") == "rejected" else
-                     "default" if o.lstrip("?") == "c0" else "route")] += 1
+                soft = o.startswith("?")
+                o = o.lstrip("?").split("/")[0]
+                hist[("soft " if soft else "") + ("order-dependent" if "~" in o else "default" if o == "c0" else
+                                                  o if o in ("error", "rejected") else "route")] += 1
             fresh.append(c)
         rnd = random.Random(seed)
         rnd.shuffle(fresh)
@@ -292,6 +295,8 @@ def run(tier, seed, replay):
         for kk, n in res["counters"].items():
             if kk.startswith("out/"):
                 observed[kk[4:]] += n
+            elif kk.startswith("dialcode/"):
+                observed[kk] += n
             elif kk in ("order_amb_observed", "soft_differs", "refused_expected", "lookups", "drift"):
                 observed[kk] += n
     v.coverage.update(
